@@ -15,7 +15,7 @@ THRESHOLDS = [[1, 3], [1, 2], [2, 3], [1, 1], [3, 10], [7, 10], [4, 5], [5, 7], 
               # thresholds that need more than two / four decimals
               [33333, 100000], [33334, 100000], [66667, 100000], [70711, 100000], [49999, 100000], [618, 1000]]
 OUTS = [None, None, [], ['a'], ['b', 'a'], ['s'], ['id', 'a'], ['a', 'a'], ['b', 's', 'a'],
-        ['a', 'b', 'a'], ['s', 's']]
+        ['a', 'b', 'a'], ['s', 's'], ['d'], ['d', 'a'], ['a', 'd', 'b'], ['b', 'd', 's', 'a']]
 COLORDERS = [['id', 's', 'a', 'b'], ['a', 's', 'b', 'id'], ['s', 'b', 'id', 'a'], ['b', 'a', 's', 'id']]
 LKEYS = [2, 3, 1, 5, 4, 6, 7, 8]
 RKEYS = [12, 11, 13, 15, 14, 16, 17, 18]
@@ -41,22 +41,28 @@ KEYKINDS = ['int', 'int', 'int', 'str', 'neg', 'float', 'big']
 
 
 def key_value(kind, k):
-    return {'int': k, 'str': 'key-%d' % k, 'neg': -k, 'float': k + 0.5, 'big': 3000000000 + k}[kind]
+    return {'int': k, 'str': 'key-%d' % k, 'neg': -k, 'float': k + 0.5, 'big': 2 ** 60 + k}[kind]
 
 
 def table_spec(rng, side, values, render, sdtype='object'):
     """values: list of abstract join values (None = missing)."""
     kind = rng.choice(KEYKINDS)
     keys = [key_value(kind, k) for k in (LKEYS if side == 'L' else RKEYS)]
-    order = rng.choice(COLORDERS)
+    order = list(rng.choice(COLORDERS))
+    order.insert(rng.randrange(len(order) + 1), 'd')
+    dkind = rng.choice(['dt_ns', 'td_ns', 'float', 'bool', 'dt_ns'])
     rows = []
     for i, v in enumerate(values):
-        cells = {'id': keys[i], 's': None if v is None else render(v),
+        dval = {'dt_ns': 1700000008869733641 + 1000000007 * i + (0 if side == 'L' else 5),
+                'td_ns': 86400000000123 * (i + 1) + (0 if side == 'L' else 7),
+                'float': 0.25 + i + (0 if side == 'L' else 100), 'bool': bool((i + (side == 'R')) % 2)}[dkind]
+        cells = {'id': keys[i], 'd': dval, 's': None if v is None else render(v),
                  'a': (100 if side == 'L' else 200) + 7 * i,
                  'b': None if (i + (0 if side == 'L' else 1)) % 3 == 1 else '%s%d' % ('x' if side == 'L' else 'y', i)}
         rows.append([cells[c] for c in order])
     return {'cols': order, 'rows': rows, 'index': index_labels(rng, len(values)),
-            'strcols': ['s', 'b'] + (['id'] if kind == 'str' else []), 'sdtype': sdtype}
+            'strcols': ['s', 'b'] + (['id'] if kind == 'str' else []), 'sdtype': sdtype,
+            'special': {'d': dkind}}
 
 
 def render_set(rng):
@@ -94,7 +100,7 @@ def set_case(rng, pair, slot):
     case['lpre'], case['rpre'] = rng.choice([('l_', 'r_'), ('l_', 'r_'), ('left.', 'r'), ('', 'R_')])
     case['n_jobs'] = rng.choice([1, 1, 1, 1, 1, 1, 2, 3])
     case['progress'] = 1 if rng.random() < 0.06 else 0
-    sdtype = rng.choice(['object', 'object', 'str'])
+    sdtype = rng.choice(['object', 'object', 'str', 'string'])
     render = render_set(rng)
     case['L'] = table_spec(rng, 'L', [None if v == [0] else v for v in pair['L']], render, sdtype)
     case['R'] = table_spec(rng, 'R', [None if v == [0] else v for v in pair['R']], render, sdtype)
@@ -125,7 +131,7 @@ def str_case(rng, pair, slot):
     case['lpre'], case['rpre'] = rng.choice([('l_', 'r_'), ('left.', 'r')])
     case['n_jobs'] = rng.choice([1, 1, 1, 1, 2, 3])
     case['progress'] = 1 if rng.random() < 0.06 else 0
-    sdtype = rng.choice(['object', 'object', 'str'])
+    sdtype = rng.choice(['object', 'object', 'str', 'string'])
     render = lambda v: ''.join('ab'[c - 1] for c in v)
     case['L'] = table_spec(rng, 'L', [None if v == [0] else v for v in pair['L']], render, sdtype)
     case['R'] = table_spec(rng, 'R', [None if v == [0] else v for v in pair['R']], render, sdtype)
